@@ -41,6 +41,8 @@ claimed = {
              note="Enzyme names and supplier letters are assumed pairwise distinct. JSON text layer not modelled (see C15)."),
  "C15": dict(design="5/C15", text="json.MarshalIndent -> polyjson.Parse on structured annotated sequences (symbolic strings, flags and bounds; references, Other map and attribute maps absent / empty / populated; nested location trees): every field except ParentSequence equal, every feature re-linked to a parent and reporting the same sequence as before.",
              note="encoding/json is replaced by a contract model that reads the real struct types and tags of /repo's current source through go/types (exported fields, names, '-', omitempty, duplicate-name elimination, case-insensitive decode, nil<->null); JSON text syntax/escaping/non-ASCII and the format->JSON->format sentence are outside the claim. Counterexamples are replayed natively against the real encoding/json."),
+ "C13": dict(design="5/C13", text="fasta.Build / Parse / ParseConcurrent from SSA with record names and every sequence letter symbolic: Parse(Build(x)) = x, the parse result is unchanged by the harness's own re-wrapping (widths 1/3/60, blank lines, ';' comments, CRLF), sequences of 65536 letters (quick) and 65535/65536/65537/70000 (thorough) survive, and the streaming parser delivers the records in order and closes its channel exactly once for channel capacities 0/1/1000 over all explored schedules.",
+             note="bufio.Scanner (incl. its token-size limit and Buffer()), bytes.Reader and bytes.Buffer are models; goroutines are scheduled at synchronisation points only (default schedule, its LIFO mirror and all schedules deviating at <= 2 (quick) / 3 (thorough) choice points); gzip, files and the race detector are outside the claim."),
 }
 
 na_reason = {}
